@@ -1087,6 +1087,18 @@ MUTANTS = [
     {"name": "rate-builder-strips-grain-through-alias", "file": "naunet/grains/hh93grain.py", "old": "        [spec] = [s for s in reac.reactants if not s.is_grain]\n", "new": "        others = reac.reactants\n        others.remove(next(s for s in others if s.is_grain))\n        [spec] = others\n", "rules": ["R12"]},
     {"name": "create-species-drops-lowercase-names", "file": "naunet/component.py", "old": "if species_name and species_name not in Species.known_pseudoelements():", "new": "if species_name and species_name not in Species.known_pseudoelements() and not species_name.islower():", "rules": ["R6"]},
     {"name": "thermal-reactants-through-dict", "file": "naunet/thermalprocess.py", "old": "        self._reactants = [\n            self._create_species(r) for r in reactants if self._create_species(r)\n        ]\n", "new": "        created = {r: self._create_species(r) for r in reactants}\n        self._reactants = [spec for spec in created.values() if spec is not None]\n", "rules": ["R6"]},
+    {"name": "helper-object-loss-sign", "edits": [
+        {"file": T, "old": "# define in this file to avoid circular import\n", "new": "class _Tables:\n    def __init__(self, n):\n        self.n = n\n        self.rhs = [\"0.0\"] * n\n        self.jac = [\"0.0\"] * n * n\n\n    def add(self, row, text):\n        self.rhs[row] += text\n\n\n# define in this file to avoid circular import\n", "count": 1},
+        {"file": T, "old": '        rhs = ["0.0"] * n_eqns\n        jacrhs = ["0.0"] * n_eqns * n_eqns\n', "new": '        tabs = _Tables(n_eqns)\n        rhs = tabs.rhs\n        jacrhs = tabs.jac\n'},
+        {"file": T, "old": 'rhs[specidx] += f" - {rate_sym}[{rl}]*{rsym_mul}"', "new": 'tabs.add(specidx, f" + {rate_sym}[{rl}]*{rsym_mul}")'}], "rules": ["R2"]},
+    {"name": "term-lists-gain-sign", "edits": [
+        {"file": T, "old": '        rhs = ["0.0"] * n_eqns\n', "new": '        rhsparts = [["0.0"] for _ in range(n_eqns)]\n'},
+        {"file": T, "old": 'rhs[specidx] += f" - {rate_sym}[{rl}]*{rsym_mul}"', "new": 'rhsparts[specidx].append(f" - {rate_sym}[{rl}]*{rsym_mul}")'},
+        {"file": T, "old": 'rhs[specidx] += f" + {rate_sym}[{rl}]*{rsym_mul}"', "new": 'rhsparts[specidx].append(f" - {rate_sym}[{rl}]*{rsym_mul}")'},
+        {"file": T, "old": 'rhs[sidx] += f" + ({fact}) * {depsym_mul}"', "new": 'rhsparts[sidx].append(f" + ({fact}) * {depsym_mul}")'},
+        {"file": T, "old": 'rhs[n_spec] += f" + {hrate_sym}[{hidx}] * {rsym_mul}"', "new": 'rhsparts[n_spec].append(f" + {hrate_sym}[{hidx}] * {rsym_mul}")'},
+        {"file": T, "old": 'rhs[n_spec] += f" - {crate_sym}[{cidx}] * {rsym_mul}"', "new": 'rhsparts[n_spec].append(f" - {crate_sym}[{cidx}] * {rsym_mul}")'},
+        {"file": T, "old": '        lhs = [f"ydot[IDX_{x.alias}]" for x in species]\n', "new": '        rhs = ["".join(parts) for parts in rhsparts]\n        lhs = [f"ydot[IDX_{x.alias}]" for x in species]\n'}], "rules": ["R3"]},
     {"name": "tgas-macro", "file": "naunet/templates/base/cpp/include/naunet_macros.h.j2", "old": "#define IDX_TGAS NSPECIES", "new": "#define IDX_TGAS NEQUATIONS", "rules": ["R4"]},
 ]
 BENIGN = [
@@ -1135,5 +1147,17 @@ BENIGN = [
     {"name": "fex-loop-over-map-pipeline", "file": TEMPLATES["cvode"], "old": "    {% for eq in ode.fex -%}\n        {{ eq | stmwrap(80, 8) }}\n    {% endfor %}\n", "new": "    {% for stm in ode.fex | map(\"stmwrap\", 80, 8) -%}\n        {{ stm }}\n    {% endfor %}\n"},
     {"name": "reactants-filter-is-not-none", "file": 'naunet/reactions/reaction.py', "old": '        self.reactants = [\n            self._create_species(r.strip())\n            for r in rps[0:3]\n            if self._create_species(r.strip())\n        ]\n', "new": '        self.reactants = [\n            self._create_species(r.strip())\n            for r in rps[0:3]\n            if self._create_species(r.strip()) is not None\n        ]\n'},
     {"name": "fex-loop-with-comment", "file": TEMPLATES["cvode"], "old": "    {% for eq in ode.fex -%}\n        {{ eq | stmwrap(80, 8) }}\n    {% endfor %}\n", "new": "    {% for eq in ode.fex -%}\n        // equation {{ loop.index0 }}\n        {{ eq | stmwrap(80, 8) }}\n    {% endfor %}\n"},
+    {"name": "rhs-table-in-helper-object", "edits": [
+        {"file": T, "old": "# define in this file to avoid circular import\n", "new": "class _Tables:\n    def __init__(self, n):\n        self.n = n\n        self.rhs = [\"0.0\"] * n\n        self.jac = [\"0.0\"] * n * n\n\n    def add(self, row, text):\n        self.rhs[row] += text\n\n\n# define in this file to avoid circular import\n", "count": 1},
+        {"file": T, "old": '        rhs = ["0.0"] * n_eqns\n        jacrhs = ["0.0"] * n_eqns * n_eqns\n', "new": '        tabs = _Tables(n_eqns)\n        rhs = tabs.rhs\n        jacrhs = tabs.jac\n'},
+        {"file": T, "old": 'rhs[specidx] += f" - {rate_sym}[{rl}]*{rsym_mul}"', "new": 'tabs.add(specidx, f" - {rate_sym}[{rl}]*{rsym_mul}")'}]},
+    {"name": "rhs-term-lists-joined", "edits": [
+        {"file": T, "old": '        rhs = ["0.0"] * n_eqns\n', "new": '        rhsparts = [["0.0"] for _ in range(n_eqns)]\n'},
+        {"file": T, "old": 'rhs[specidx] += f" - {rate_sym}[{rl}]*{rsym_mul}"', "new": 'rhsparts[specidx].append(f" - {rate_sym}[{rl}]*{rsym_mul}")'},
+        {"file": T, "old": 'rhs[specidx] += f" + {rate_sym}[{rl}]*{rsym_mul}"', "new": 'rhsparts[specidx].append(f" + {rate_sym}[{rl}]*{rsym_mul}")'},
+        {"file": T, "old": 'rhs[sidx] += f" + ({fact}) * {depsym_mul}"', "new": 'rhsparts[sidx].append(f" + ({fact}) * {depsym_mul}")'},
+        {"file": T, "old": 'rhs[n_spec] += f" + {hrate_sym}[{hidx}] * {rsym_mul}"', "new": 'rhsparts[n_spec].append(f" + {hrate_sym}[{hidx}] * {rsym_mul}")'},
+        {"file": T, "old": 'rhs[n_spec] += f" - {crate_sym}[{cidx}] * {rsym_mul}"', "new": 'rhsparts[n_spec].append(f" - {crate_sym}[{cidx}] * {rsym_mul}")'},
+        {"file": T, "old": '        lhs = [f"ydot[IDX_{x.alias}]" for x in species]\n', "new": '        rhs = ["".join(parts) for parts in rhsparts]\n        lhs = [f"ydot[IDX_{x.alias}]" for x in species]\n'}]},
     {"name": "template-reindent", "file": TEMPLATES["cvode"], "old": "    {% for eq in ode.fex -%}\n        {{ eq | stmwrap(80, 8) }}", "new": "    {% for eq in ode.fex -%}\n      {{ eq|stmwrap(80, 6) }}"},
 ]
